@@ -24,9 +24,9 @@ import (
 func init() {
 	core.Register(&core.Check{
 		ID: "C09", World: "R (relying party)", Level: "exploration",
-		Rule: "one evaluation = one seeded schedule of 2-4 tasks that share one validator closure (SNPValidateFunc / SNPFamilyValidateFunc), one verify.Options value across closures, or one SevValidateOptions value, each validating its own attestation (endorsed measurement, un-endorsed measurement, measurement of another VMSA count) with its own blob source (certificate table, getter, options); " +
-			"tasks are real goroutines of which exactly one is runnable: they park at yield points (the network getter, the certificate-pool constraint callback inside CheckCertificate and, in the instrumented worker, before EVERY statement of verify.go / sevvalidate.go / sevpolicy.go / tdxvalidate.go / tdxpolicy.go) and the seeded scheduler picks who resumes (uniform, switch-with-probability p, or PCT-style priorities with up to 3 priority-change points); " +
-			"oracle: every call's result equals the result of the same call alone on a fresh identically configured options value; an un-endorsed report is rejected; a later isolated call through the shared value behaves like a fresh one; non-trivial = at least one context switch while two calls are in flight; distinct by schedule signature",
+		Rule: "one evaluation = one seeded schedule of 2-4 tasks that share one validator closure (SNPValidateFunc / SNPFamilyValidateFunc), one verify.Options value across closures, or one SevValidateOptions value, each validating its own attestation (endorsed measurement, un-endorsed measurement, measurement of another VMSA count) with its own blob source (certificate table, getter, options), some callers with a clock past the certificate's validity, sometimes during a transient network outage (the call whose own fetch fails may fail, nobody else); " +
+			"tasks are real goroutines of which exactly one is runnable (a task found blocked in a lock, sync.Once or channel whose holder is parked is set aside until the holder has moved on): they park at yield points (the network getter, the certificate-pool constraint callback inside CheckCertificate and, in the instrumented worker, before EVERY statement of verify.go / sevvalidate.go / sevpolicy.go / tdxvalidate.go / tdxpolicy.go) and the seeded scheduler picks who resumes (uniform, switch-with-probability p, or PCT-style priorities with up to 3 priority-change points); " +
+			"oracle: every call's result equals the result of the same call alone on a fresh identically configured options value; an un-endorsed report is rejected; later isolated calls through the shared value (an un-endorsed report, an endorsed report fetched over the healed network, a forged blob) behave like fresh ones; calls never deadlock each other; non-trivial = at least one context switch while two calls are in flight; distinct by schedule signature",
 		Assumptions: []string{
 			"the race detector pass is not part of this check: the deciding evidence is the seeded schedule exploration over inserted yield points",
 			"results are compared as accept / reject (error texts may legitimately embed per-call data)",
@@ -46,7 +46,7 @@ type sched struct {
 	r        *core.Run
 	tasks    []*stask
 	current  *stask
-	back     chan struct{}
+	back     chan int // a task parked at a yield point, or finished: its id
 	picks    []byte
 	switches int
 	maxSteps int
@@ -57,75 +57,183 @@ type sched struct {
 	prio    []int
 	changes map[int]bool
 	step    int
-	// lock handling (instrumented worker)
-	nblocked int
-	stall    int
-	deadlock bool
-	stuck    bool
+	// lock handling
+	nblocked  int // failed TryLock of an instrumented Lock statement
+	nwaiting  int // a task found blocked for real in a primitive the scheduler does not own
+	anyWaiter bool
+	stall     int
+	deadlock  bool
+	stuck     bool
 }
 
 type stask struct {
 	id      int
+	gid     string // runtime goroutine id, for the "is it blocked for real" look at its stack
 	resume  chan struct{}
 	done    bool
 	blocked bool // came back from a failed TryLock: not to be resumed before someone else has run
-	steps   int
-	fn      func()
-	panicV  any
+	// waiting: found blocked for real (sync.Once, a mutex of uninstrumented code, a channel) while
+	// the holder is parked. It is not parked on resume; it will report through back when it gets
+	// to its next yield point after the holder has moved on.
+	waiting  bool
+	netFault bool // its own fetch hit the transient outage: its failure is legitimate
+	steps    int
+	fn       func()
+	panicV   any
+}
+
+// self returns the task of the calling goroutine. While no task has ever been found blocked for
+// real that is the one the scheduler resumed; afterwards a woken waiter may run beside it until
+// its next yield point, so the goroutine id decides.
+func (s *sched) self() *stask {
+	if !s.anyWaiter {
+		return s.current
+	}
+	g := goid()
+	for _, t := range s.tasks {
+		if t.gid == g {
+			return t
+		}
+	}
+	return nil
+}
+
+func goid() string {
+	var buf [64]byte
+	n := runtime.Stack(buf[:], false)
+	f := strings.Fields(string(buf[:n])) // "goroutine 123 [running]:"
+	if len(f) >= 2 {
+		return f[1]
+	}
+	return ""
 }
 
 func (s *sched) yield(site string) {
-	t := s.current
+	t := s.self()
 	if t == nil {
 		return // not inside a scheduled phase
 	}
 	t.steps++
-	if t.steps > s.maxSteps {
+	if t.steps > s.maxSteps && !t.waiting {
 		return
 	}
-	s.back <- struct{}{}
+	s.back <- t.id
 	<-t.resume
 }
 
 // blocked is the yield of a task whose TryLock failed (instrumented worker): the task parks
 // whatever its step count and is not picked again until another task has made a step.
 func (s *sched) blocked(site string) {
-	t := s.current
+	t := s.self()
 	if t == nil {
 		runtime.Gosched()
 		return
 	}
 	t.blocked = true
 	s.nblocked++
-	s.back <- struct{}{}
+	s.back <- t.id
 	<-t.resume
 }
 
+// blockedForReal looks at the goroutine's stack: is it parked in a synchronisation primitive that
+// is not one of the scheduler's own channels? With every other task parked that state is stable
+// and a function of the schedule, not of timing.
+func blockedForReal(t *stask) bool {
+	buf := make([]byte, 1<<18)
+	n := runtime.Stack(buf, true)
+	for _, g := range strings.Split(string(buf[:n]), "\n\n") {
+		head, _, _ := strings.Cut(g, "\n")
+		if !strings.HasPrefix(head, "goroutine "+t.gid+" [") {
+			continue
+		}
+		state := head[strings.IndexByte(head, '[')+1:]
+		wait := false
+		for _, w := range []string{"sync.Mutex.Lock", "sync.RWMutex", "semacquire", "sync.Cond.Wait", "sync.WaitGroup.Wait", "chan receive", "chan send", "select"} {
+			if strings.HasPrefix(state, w) {
+				wait = true
+			}
+		}
+		if !wait {
+			return false
+		}
+		// the scheduler's own hand-over channels are not "blocked": look at the first frame
+		// outside the runtime and the sync package
+		for i, line := range strings.Split(g, "\n") {
+			if i == 0 || strings.HasPrefix(line, "\t") || strings.HasPrefix(line, "runtime.") || strings.HasPrefix(line, "sync.") ||
+				strings.HasPrefix(line, "internal/") || strings.HasPrefix(line, "sync/") {
+				continue
+			}
+			return !strings.HasPrefix(line, "verifsim/worldr.(*sched).")
+		}
+		return false
+	}
+	return false
+}
+
+// await waits until task pick parks (or finishes). Reports of woken waiters that reach a yield
+// point meanwhile are absorbed. It returns false if pick was found blocked for real.
+func (s *sched) await(pick *stask) bool {
+	poll := 2 * time.Millisecond
+	waited := time.Duration(0)
+	timer := time.NewTimer(poll)
+	defer timer.Stop()
+	for {
+		select {
+		case id := <-s.back:
+			if id == pick.id {
+				return true
+			}
+			s.tasks[id].waiting = false // parked at a yield point now (or done): an ordinary task again
+		case <-timer.C:
+			waited += poll
+			if blockedForReal(pick) {
+				pick.waiting, s.anyWaiter = true, true
+				s.nwaiting++
+				return false
+			}
+			if waited > stuckAfter {
+				s.stuck = true
+				return false
+			}
+			if poll < 200*time.Millisecond {
+				poll *= 2
+			}
+			timer.Reset(poll)
+		}
+	}
+}
+
 func (s *sched) run(fns []func()) {
-	s.back = make(chan struct{})
+	s.back = make(chan int)
 	for i, f := range fns {
 		t := &stask{id: i, resume: make(chan struct{}), fn: f}
 		s.tasks = append(s.tasks, t)
+		started := make(chan struct{})
 		go func(t *stask) {
+			t.gid = goid()
+			close(started)
 			<-t.resume
 			defer func() {
 				if p := recover(); p != nil {
 					t.panicV = p
 				}
 				t.done = true
-				s.back <- struct{}{}
+				s.back <- t.id
 			}()
 			t.fn()
 		}(t)
+		<-started
 	}
 	s.last = -1
 	for {
 		var runnable []*stask
-		alive := 0
+		alive, waiters := 0, 0
 		for _, t := range s.tasks {
 			if !t.done {
 				alive++
-				if !t.blocked {
+				if t.waiting {
+					waiters++
+				} else if !t.blocked {
 					runnable = append(runnable, t)
 				}
 			}
@@ -133,20 +241,29 @@ func (s *sched) run(fns []func()) {
 		if alive == 0 {
 			break
 		}
-		if len(runnable) == 0 {
-			// everyone waits for a lock: let them all retry; if a whole round of retries makes no
-			// progress the calls have deadlocked each other
+		if len(runnable) == 0 && waiters < alive {
+			// everyone who can be resumed waits for a lock: let them all retry; if a whole round of
+			// retries makes no progress the calls have deadlocked each other
 			s.stall++
 			if s.stall > 2 {
 				s.deadlock = true
 				break
 			}
 			for _, t := range s.tasks {
-				if !t.done {
+				if !t.done && !t.waiting {
 					t.blocked = false
 					runnable = append(runnable, t)
 				}
 			}
+		}
+		if len(runnable) == 0 {
+			// only tasks blocked for real are left: either the holder has just moved on and they
+			// are on their way to a yield point, or they wait for each other
+			if !s.absorbWaiter() {
+				s.deadlock = true
+				break
+			}
+			continue
 		}
 		var pick *stask
 		s.step++
@@ -165,8 +282,8 @@ func (s *sched) run(fns []func()) {
 					pick = t
 				}
 			}
-		} else if s.switchP > 0 && s.last >= 0 && !s.tasks[s.last].done && !s.tasks[s.last].blocked && !s.r.Chance(s.switchP, "switch?") {
-			pick = s.tasks[s.last]
+		} else if lt := s.lastTask(); s.switchP > 0 && lt != nil && !lt.done && !lt.blocked && !lt.waiting && !s.r.Chance(s.switchP, "switch?") {
+			pick = lt
 		} else {
 			pick = runnable[s.r.Intn(len(runnable), "pick")]
 		}
@@ -179,15 +296,12 @@ func (s *sched) run(fns []func()) {
 		}
 		s.current = pick
 		pick.resume <- struct{}{}
-		select {
-		case <-s.back:
-		case <-time.After(stuckAfter):
-			// The task neither finished nor reached a yield point: it waits for something the
-			// scheduler does not control (a lock taken in uninstrumented code, sync.Once, a
-			// channel) that a parked task holds. Not a verdict about the property.
-			s.stuck = true
-			s.current = nil
-			return
+		if !s.await(pick) {
+			if s.stuck {
+				s.current = nil
+				return
+			}
+			continue // pick is blocked for real: somebody else has to move
 		}
 		if !pick.blocked {
 			// progress: everybody who waited for a lock may try again
@@ -200,6 +314,36 @@ func (s *sched) run(fns []func()) {
 	s.current = nil
 }
 
+func (s *sched) lastTask() *stask {
+	if s.last < 0 {
+		return nil
+	}
+	return s.tasks[s.last]
+}
+
+// absorbWaiter waits for one task that was blocked for real to reach a yield point. False: all of
+// them are still blocked with nobody left to release them.
+func (s *sched) absorbWaiter() bool {
+	for tries := 0; tries < 200; tries++ {
+		select {
+		case id := <-s.back:
+			s.tasks[id].waiting = false
+			return true
+		case <-time.After(5 * time.Millisecond):
+			all := true
+			for _, t := range s.tasks {
+				if !t.done && t.waiting && !blockedForReal(t) {
+					all = false
+				}
+			}
+			if all && tries >= 2 {
+				return false
+			}
+		}
+	}
+	return false
+}
+
 const stuckAfter = 60 * time.Second
 
 type c09Task struct {
@@ -210,8 +354,11 @@ type c09Task struct {
 	// the genuine one, another image's genuine one, or one with a broken signature
 	blob      []byte
 	blobClass string
-	want      bool
-	got       error
+	// expired: this caller's clock (its own copy of the options) is past the signing certificate's
+	// validity; it shares the root pool object with the other callers
+	expired bool
+	want    bool
+	got     error
 }
 
 func runC09(r *core.Run) {
@@ -308,6 +455,10 @@ func runC09(r *core.Run) {
 				t.blob, t.blobClass = Reassemble(is.Golden, nil, AttackerKey(a, 0), 0), "bad-signature"
 			}
 		}
+		if shape != 2 && t.source == 2 && r.Chance(25, "expired-clock?") {
+			t.expired = true
+			t.measClass += "+expired-clock"
+		}
 		tasks[i] = t
 	}
 	newOpts := func() *verify.Options {
@@ -343,6 +494,9 @@ func runC09(r *core.Run) {
 		// copy of the shared options with the endorsement set (still sharing the SNP sub-structure)
 		oc := *o
 		oc.Endorsement = is.Proto
+		if t.expired {
+			oc.Now = now.Add(20 * 365 * 24 * time.Hour)
+		}
 		return verify.SNPValidateFunc(&oc)(SnpAttestation(t.meas, nil), nil)
 	}
 	// ---- isolation baseline: each call alone on fresh, identically configured values ----
@@ -382,6 +536,17 @@ func runC09(r *core.Run) {
 	if successive {
 		s.maxSteps = 0
 	}
+	// a transient network outage during the calls: the call whose own fetch fails may fail; nobody
+	// else may, and nothing of the failure may stick to the shared validator
+	if r.Chance(20, "net-outage?") {
+		net.FailNext = 1 + r.Intn(2, "outage-requests")
+		net.OnFault = func() {
+			r.Fault("net-transient", "during the concurrent calls")
+			if t := s.self(); t != nil {
+				t.netFault = true
+			}
+		}
+	}
 	setYieldHook(s.yield)
 	setBlockedHook(s.blocked)
 	var fns []func()
@@ -399,6 +564,7 @@ func runC09(r *core.Run) {
 	setYieldHook(nil)
 	setBlockedHook(nil)
 	net.Yield = nil
+	net.FailNext, net.OnFault = 0, nil
 	if s.stuck {
 		// goroutines of this run are still parked or blocked: nothing further can be said
 		r.HarnessErr = fmt.Sprintf("C09: a task neither finished nor reached a yield point within %v (schedule %s): it waits for a primitive the scheduler does not control while its holder is parked", stuckAfter, core.Short(string(s.picks), 60))
@@ -406,6 +572,9 @@ func runC09(r *core.Run) {
 	}
 	if s.nblocked > 0 {
 		r.Probes["lock-contended"] += s.nblocked
+	}
+	if s.nwaiting > 0 {
+		r.Probes["blocked-in-uncontrolled-primitive"] += s.nwaiting
 	}
 	if s.deadlock {
 		r.Fail("result-differs-from-isolation", "deadlock", "the concurrent calls wait for each other's locks for ever (schedule %s): no call completes, each completes in isolation", core.Short(string(s.picks), 80))
@@ -429,8 +598,12 @@ func runC09(r *core.Run) {
 		if t.blobClass == "bad-signature" && got {
 			r.Fail("unendorsed-accepted", fmt.Sprintf("bad-blob/shared-%d", shape), "%s: task %c's attestation carries an endorsement with a broken signature, yet it was accepted", where, 'A'+i)
 		}
-		if t.measClass == "unendorsed" && got {
+		if strings.HasPrefix(t.measClass, "unendorsed") && got {
 			r.Fail("unendorsed-accepted", fmt.Sprintf("shared-%d", shape), "%s: task %c's report carries a measurement the endorsement does not list, yet it was accepted (%d context switches)", where, 'A'+i, s.switches)
+		}
+		if s.tasks[i].netFault && !got {
+			r.Probe("call-failed-on-its-own-fetch")
+			continue
 		}
 		if got != t.want {
 			r.Fail("result-differs-from-isolation", fmt.Sprintf("shared-%d", shape), "%s: task %c got accept=%v, the same call in isolation gives accept=%v (error: %v)", where, 'A'+i, got, t.want, t.got)
@@ -443,6 +616,19 @@ func runC09(r *core.Run) {
 	gotErr := call(probe, sharedF, sharedOpts, sharedSev)
 	if (wantErr == nil) != (gotErr == nil) {
 		r.Fail("result-differs-from-isolation", fmt.Sprintf("later-call/shared-%d", shape), "%s: after the calls above, an isolated call through the shared value gives accept=%v, a fresh value gives accept=%v", where, gotErr == nil, wantErr == nil)
+	}
+	// and an endorsed report fetched over the (healed) network: whatever failed earlier must not stick
+	{
+		good := &c09Task{meas: is.Golden.SevSnp.Measurements[2], measClass: "endorsed", source: 1, blob: is.Bytes, blobClass: "genuine"}
+		if named != 0 {
+			good.meas = is.Golden.SevSnp.Measurements[named]
+		}
+		f3, fs3 := newOpts(), newSevOpts()
+		w := call(good, verify.SNPValidateFunc(f3), f3, fs3)
+		g := call(good, sharedF, sharedOpts, sharedSev)
+		if (w == nil) != (g == nil) {
+			r.Fail("result-differs-from-isolation", fmt.Sprintf("later-fetch/shared-%d", shape), "%s: after the calls above, an endorsed report fetched through the shared value gives accept=%v (%v), a fresh value gives accept=%v", where, g == nil, g, w == nil)
+		}
 	}
 	if shape == 2 {
 		// and one whose own endorsement is forged
